@@ -25,7 +25,7 @@ theorem accepted_iff (env : Env Net Pat IP) (pol : Policy Net Pat) (a : Answers)
     (parseOrResolve env pol a rs n).out ≠ "" ↔
       ∃ host port ip, a.providedIsIP = false ∧ a.split = some (host, port) ∧
         isBlocklistedCovertDomain env pol host = false ∧ a.portOk = true ∧
-        rs n = .addr (some ip) "" ∧ isBlocklistedCovertAddr env pol ip = false ∧
+        rs n = .addr (some ip) "" ∧ env.unspecified ip = false ∧ isBlocklistedCovertAddr env pol ip = false ∧
         parseOrResolve env pol a rs n = ⟨joinHostPort (env.ipText ip) port, !a.hostIsIP, n + 1⟩ := by
   constructor
   · intro h
@@ -49,15 +49,18 @@ theorem accepted_iff (env : Env Net Pat IP) (pol : Policy Net Pat) (a : Answers)
               cases ip with
               | none => simp [parseOrResolve, hp, hs, hd, hk, hr] at h
               | some ip =>
-                cases hb : isBlocklistedCovertAddr env pol ip with
-                | true => simp [parseOrResolve, hp, hs, hd, hk, hr, hb] at h
+                cases hu : env.unspecified ip with
+                | true => simp [parseOrResolve, hp, hs, hd, hk, hr, hu] at h
                 | false =>
-                  by_cases hz : zone = ""
-                  · subst hz
-                    refine ⟨host, port, ip, rfl, rfl, hd, rfl, rfl, hb, ?_⟩
-                    simp [parseOrResolve, hp, hs, hd, hk, hr, hb, addrText]
-                  · simp [parseOrResolve, hp, hs, hd, hk, hr, hb, hz] at h
-  · rintro ⟨host, port, ip, _, _, _, _, _, _, h⟩
+                  cases hb : isBlocklistedCovertAddr env pol ip with
+                  | true => simp [parseOrResolve, hp, hs, hd, hk, hr, hb] at h
+                  | false =>
+                    by_cases hz : zone = ""
+                    · subst hz
+                      refine ⟨host, port, ip, rfl, rfl, hd, rfl, rfl, hu, hb, ?_⟩
+                      simp [parseOrResolve, hp, hs, hd, hk, hr, hu, hb, addrText]
+                    · simp [parseOrResolve, hp, hs, hd, hk, hr, hu, hb, hz] at h
+  · rintro ⟨host, port, ip, _, _, _, _, _, _, _, h⟩
     rw [h]
     exact joinHostPort_ne_empty _ port
 
@@ -73,7 +76,7 @@ theorem cursor_bounds (env : Env Net Pat IP) (pol : Policy Net Pat) (a : Answers
       · simp
       · split
         · simp
-        · split <;> (try split) <;> (try split) <;> simp
+        · split <;> (try split) <;> (try split) <;> (try split) <;> simp
 
 /-- the whole result is a function of the one answer under the cursor -/
 theorem result_congr (env : Env Net Pat IP) (pol : Policy Net Pat) (a : Answers) (rs rs' : Resolver IP) (n : Nat)
